@@ -1,14 +1,14 @@
 ID = "C13"
-N_QUICK = 500
+N_QUICK = 400
 N_THOROUGH = 12000
 MODEL_SHOW = "run"
 DISAGREE_IS_VIOLATION = True   # observables are exactly what the property fixes
-RULE = ("exposure stream: every zoo entry (24 registrations of 22 entry types, 91 methods) x 7 naming functions "
-        "(x 3 group options in the thorough tier): HasMethod for every declared name renamed/raw/mutated (~10 "
-        "routes per method), GetArgType for the real routes, one CallWithSerialize per method; behaviours stream: "
-        "every zoo entry x {JSON, protobuf}: every method with a context and a message parameter x 6 handler "
-        "behaviours x with/without completion function x matching/nil/foreign context, through CallWithSerialize "
-        "and APICollection.Call (nil / foreign message too); f4 stream: 2 (quick) / 6 (thorough) three-op cases "
+RULE = ("exposure stream: every zoo entry (34 registrations - value, pointer, one unnamed struct type - of 30 entry types, 122 methods) x 7 naming functions "
+        "(x 3 group options in the thorough tier), two methods per case: HasMethod for every declared name "
+        "renamed/raw/mutated (7 routes per method), GetArgType for the real route, one CallWithSerialize per method; "
+        "behaviours stream: every zoo entry x {JSON, protobuf} x method with a context and a message parameter: 6 handler "
+        "behaviours x with/without completion function, matching/nil/foreign context, undecodable payload, through "
+        "CallWithSerialize and APICollection.Call (nil / foreign message too; short list for non-handler-shaped methods in quick); f4 stream: 2 (quick) / 6 (thorough) three-op cases "
         "calling a notify-shaped method with a completion function; random: 1-4 registrations (group collisions, "
         "register-after-build, no build), 4-15 ops with real / mutated / random / special routes, encoded / "
         "malformed / random / empty payloads, nil serializer. Non-trivial = some HasMethod answered true or some "
